@@ -53,8 +53,14 @@ for e, fn, rep, pre in (('h_populate', 'init_table_populate_partition', ('_cds_l
         min_covers=2, checks=('--bounds-check', '--signed-overflow-check', '--div-by-zero-check'), timeout=300, functions=(fn,),
         assumptions=('_cds_lfht_add (bucket mode) / _cds_lfht_gc_bucket are used through contracts whose preconditions are the call shapes; their bodies are the subject of C08.O5.add_bucket and C07.O2.gc_bucket',),
         desc=fn + ' (loop invariant: any order, start, len): each bucket index of the share exactly once, in order, with the documented call shape (old size / parent bucket, reverse hash set first, REMOVED before unlink), inside one read-side critical section'))
+# "every node present before a resize is still found afterwards" also depends on how a grow links each new bucket node and how a
+# shrink unlinks it: the bodies behind the call shapes of C09.O5 (shared with C08 / C07; obligations/C08.py imports this module,
+# hence the late import, resolved by engine/check.py)
+def _shared():
+    from obligations import C08 as _c08
+    return [o for o in _c08.OBLIGATIONS if o.name in ('C08.O5.add_bucket', 'C07.O2.gc_bucket_small', 'C07.O2.gc_bucket')]
 META = {
-    'level': 'proof',
+    'level': 'proof', 'bounded_apart': True,
     'trusted_base': ['CBMC 6.11 (dfcc contract instrumentation, SAT back end)', 'fls_u64: bsr inline asm replaced by an assumed instruction contract',
                      'sequential meaning of uatomic/cmm primitives (atomics_seq.h)', 'pthread mutex stubs'],
     'assumptions': ['quiescent resize: no other thread moves resize_target / in_progress_destroy during the call (concurrent re-targeting is outside the contracts)',
